@@ -268,7 +268,8 @@ def check(run, only_cases=None):
         'Py.SemAnf is a hand-written semantics of the generated subset (validated against CPython 3.12 on every run, not proved); '
         'operators, attribute/item loads and truthiness are pure total functions; unbound-name errors are not modelled',
         'directive callables other than anf.REPLACE / anf.LEAVE are not modelled (configurations are lists of edge patterns)',
-        'C18_sem_partial is proved for the fragment stated in Props/C18.lean; outside it preservation is tested, not proved',
+        'C18_sem_partial is proved for the fragment stated in Props/C18.lean (fragFn); outside it preservation is tested, not proved; '
+        'the distribution of the reasons that put accepted functions outside the fragment is in coverage.fragment_exclusion_*',
     ]
     run.build_and_audit('MaltModel.Props.C18', model_files=MODEL_FILES)
 
@@ -322,6 +323,8 @@ def check(run, only_cases=None):
             lines.append('c18.hazards %s %s' % (cs, ser))
             at['frag'] = len(lines)
             lines.append('c18.frag %s %s' % (cs, ser))
+            at['why'] = len(lines)
+            lines.append('c18.why %s %s' % (cs, ser))
             at['exec'] = len(lines)
             for a in G.INPUTS:
                 lines.append('c18.exec %s %s' % (ser, args_sexp(a)))
@@ -389,6 +392,31 @@ def check(run, only_cases=None):
         run.cov['cases_in_proved_fragment'] = len(infrag)
         run.cov['cases_in_proved_fragment_with_temporaries'] = len([i for i in infrag if results[i].get('ntemps', 0) > 0])
         run.oblige('model:proved-fragment-has-no-hazard-class', 'correspondence', not bad, json.dumps(bad[:2]) if bad else '')
+        # why are accepted cases outside the proved fragment?  (distribution of the excluding reasons)
+        def why_stats(rows):
+            acc = [w for w in rows if w is not None]
+            c, sole = collections.Counter(), collections.Counter()
+            for w in acc:
+                for r in w:
+                    c[r] += 1
+                if len(w) == 1:
+                    sole[w[0]] += 1
+            inside = sum(1 for w in acc if not w)
+            return {'accepted': len(acc), 'inside_fragment': inside,
+                    'fraction_inside': round(inside / max(1, len(acc)), 4),
+                    'reasons(functions having it)': dict(c.most_common(30)), 'sole_reason': dict(sole.most_common(15))}
+        rows = []
+        for i, (c, d) in enumerate(zip(cases, results)):
+            if c['cfg'] is None and c['stream'] == 'main' and d['res'][0] == 'ok':
+                try:
+                    rows.append(list(parse_sexp(answers[idx[i]['why']])))
+                except Exception:
+                    rows.append(None)
+        run.cov['fragment_exclusion_generated_main_default_cfg'] = why_stats(rows)
+        run.cov['fragment_growth'] = {
+            'before (fragment of the first C18_sem_partial)': {'repo_functions': '735/2480 = 29.6%', 'generated_main_stream': '60/600 = 10.0%'},
+            'note': 'fraction of the functions the transformer accepts under the default configuration that satisfy fragFn '
+                    '(and have no temporary-like names); current values in fragment_exclusion_*'}
     run.cov['hazard_classes_seen'] = dict(hazcount)
 
     # ---------------- 2. correspondence model <-> real transformer ----------------
@@ -419,6 +447,8 @@ def check(run, only_cases=None):
                 rl.append('c18.anf %s %s' % (L.config_to_sexp(cfg), pyast.Ser(fn.node).text()))
                 rexp.append(L.real_answer(L.real_anf(fn.node, cfg)))
                 rmeta.append((fn.path, fn.qualname, cfg))
+        wl = ['c18.why default %s' % pyast.Ser(fn.node).text() for fn in fns]
+        wgot = run.drive(wl)
         rgot = run.drive(rl)
         rdis = []
         rk = collections.Counter()
@@ -431,6 +461,15 @@ def check(run, only_cases=None):
             if L.model_answer_canon(g) != e:
                 rdis.append({'function': '%s:%s' % (m[0], m[1]), 'cfg': m[2], 'implementation': e[:800], 'model': L.model_answer_canon(g)[:800]})
         run.oblige('correspondence:c18.anf(repo-functions)', 'correspondence', not rdis, json.dumps(rdis[:2]) if rdis else '')
+        rows = []
+        for k, fn in enumerate(fns):
+            # rexp[2*k] is the real answer under the default configuration
+            if rexp[2 * k].startswith('(ok'):
+                try:
+                    rows.append(list(parse_sexp(wgot[k])))
+                except Exception:
+                    rows.append(None)
+        run.cov['fragment_exclusion_repo_functions_default_cfg'] = why_stats(rows)
         run.cov['repo_functions_compared'] = len(rl)
         run.cov['repo_outcomes'] = dict(rk)
 
